@@ -14,7 +14,7 @@ only counted).
 """
 import itertools
 from vlib import e2, farm
-from props._g6_common import ConfirmCtx
+from props._g6_common import ConfirmCtx, run_diff, storm_note
 
 LEVEL = 'exploration'
 ENGINE = 'E2 diffexplore'
@@ -173,7 +173,7 @@ def run(ctx):
             mods.append(e2.Mod('c40%s_%d' % (cfg, i // PER_MODULE), PRELUDE, parts, inputs, ext='.py',
                                directives=directives, use_log=False))
     col = _Collector(ctx)
-    st = e2.run_diff(col, mods, reach=REACH)
+    st = run_diff(col, mods, reach=REACH, stormkey=lambda tag, inp, exp, got: 'C40|crash|' + tag.split(':', 1)[0])
     # pair the divergences of the two builds
     by = {}
     for key, what, case in col.items:
@@ -212,6 +212,7 @@ def run(ctx):
         'samples': [{'tag': t, 'function': srcs[t]} for t in (fam[5][0], fam[len(fam) // 2][0], fam[-3][0])],
         'exhaustive': True,
     }
+    storm_note(cov, st)
     return cov, ['template sequences longer than the bound and programs with explicit C types are not covered',
                  'divergences from CPython shared by both builds are outside this property (counted only)']
 
